@@ -46,6 +46,7 @@ func mutateField(t *rapid.T, m *model.Packet, name string) {
 	}
 	bin := func() []byte {
 		if zero {
+			m.XEmptyNonNil = rapid.Bool().Draw(t, "emptynonnil")
 			return nil
 		}
 		return gen.Bytes(t, "v", o)
